@@ -80,7 +80,7 @@ EvCmd ==
                time-out is part of this very event *)
             /\ \E S3 \in (IF o.r.t = "blocks" /\ "sr" \notin DOMAIN Ev /\ Ev.r = RNilArr THEN TimedOut(o.S, Ev.c) ELSE {o.S}) :
                  IF "aof" \in DOMAIN Ev
-                 THEN \E x \in AofStep(S, S3, Ev.c, Ev.argv, Ev.aof, tm) : S' = x.S /\ devs' = devs \cup o.dv \cup x.dv
+                 THEN \E x \in AofStep(S, S3, Ev.c, Ev.argv, Ev.aof, tm, ObsOf(Ev)) : S' = x.S /\ devs' = devs \cup o.dv \cup x.dv
                  ELSE S' = S3 /\ devs' = devs \cup o.dv
 
 (* a request that got a reply although the server has no record of executing it: an `unlogged` event is
@@ -123,7 +123,7 @@ EvRaw ==
 EvConfig ==
   /\ Ev.k = "config"
   /\ S' = [S EXCEPT !.pass = IF "pass" \in DOMAIN Ev THEN Ev.pass ELSE S.pass,
-                    !.aof = IF "aof" \in DOMAIN Ev THEN [dbs |-> [d \in DBs |-> EmptyK], db |-> 0] ELSE S.aof]
+                    !.aof = IF "aof" \in DOMAIN Ev THEN [dbs |-> [d \in DBs |-> EmptyK], db |-> 0, scripts |-> {}] ELSE S.aof]
   /\ UNCHANGED devs
 
 (* hook H4: the server delivered <<key, element>> to a blocked client / timed it out *)
@@ -132,7 +132,7 @@ EvServed ==
   /\ \E S2 \in Served(S, Ev.c, Ev.frames[1]) :
        \/ S' = S2 /\ UNCHANGED devs            \* (the pop may be logged together with the next request)
        \/ /\ S.aof # NoAof /\ "aof_unlogged" \in Deviations
-          /\ S' = [S2 EXCEPT !.aof = [dbs |-> S2.dbs, db |-> S.aof.db]]
+          /\ S' = [S2 EXCEPT !.aof = [dbs |-> S2.dbs, db |-> S.aof.db, scripts |-> S.aof.scripts]]
           /\ devs' = devs \cup {"aof_unlogged"}
 EvTimeout ==
   /\ Ev.k = "timeout"
